@@ -43,6 +43,39 @@ SCORE_OPS = ["musicxml", "score_midi", "note_array", "part_note_array", "rest_ar
 PERF_OPS = ["perf_midi", "perf_note_array", "perf_len_index", "nested_iter_perf", "loose_midi", "loose_note_array"]
 
 
+MARKS = ["pedal", "pedal", "pedal-line", "loud", "cresc", "dim", "words", "tempo-dir", "rit", "tempo", "fermata", "octave"]
+
+
+def add_marks(part, marks):
+    for kind, t, end, staff in marks:
+        if kind == "pedal":
+            ob = S.SustainPedalDirection(staff=staff)
+        elif kind == "pedal-line":
+            ob = S.SustainPedalDirection(line=True, staff=staff)
+        elif kind == "loud":
+            ob = S.ConstantLoudnessDirection("f", staff=staff)
+        elif kind == "cresc":
+            ob = S.IncreasingLoudnessDirection("crescendo", wedge=end is not None, staff=staff)
+        elif kind == "dim":
+            ob = S.DecreasingLoudnessDirection("diminuendo", staff=staff)
+        elif kind == "words":
+            ob = S.Words("dolce", staff=staff)
+        elif kind == "tempo-dir":
+            ob = S.ConstantTempoDirection("adagio", staff=staff)
+        elif kind == "rit":
+            ob = S.DecreasingTempoDirection("ritardando", staff=staff)
+        elif kind == "tempo":
+            ob, end = S.Tempo(96, "q"), None
+        elif kind == "octave":
+            ob = S.OctaveShiftDirection("down", 8, staff=staff)
+        else:
+            notes = [n for n in part.iter_all(S.GenericNote, include_subclasses=True, start=t, end=t + 1)]
+            if not notes:
+                continue
+            ob, end = S.Fermata(notes[0]), None
+        part.add(ob, t, end)
+
+
 @st.composite
 def history(draw, tier):
     n = draw(st.sampled_from([1, 1, 2, 3]))
@@ -52,6 +85,16 @@ def history(draw, tier):
         # a simple repeat on some scores so that unfolding has something to do
         if len(ps["measures"]) >= 2 and draw(st.integers(0, 2)) == 0:
             ps = dict(ps, repeats=[[ps["measures"][0][0], ps["measures"][0][1]]])
+        # directions and marks, with and without an end (an element may be added with a start only)
+        onsets = sorted(set(x["t"] for x in ps["notes"])) or [0]
+        marks = []
+        for _ in range(draw(st.integers(0, 4))):
+            kind = draw(st.sampled_from(MARKS))
+            t = draw(st.sampled_from(onsets))
+            later = [x for x in onsets if x > t] + [ps["end"]]
+            end = draw(st.sampled_from(later)) if draw(st.booleans()) else None
+            marks.append([kind, t, end, draw(st.sampled_from([None, 1]))])
+        ps = dict(ps, c20_marks=marks)
         parts.append(ps)
     maxlen = 10 if tier == "quick" else 22
     names = SCORE_OPS + PERF_OPS + ["iter_new", "iter_new", "iter_next", "iter_next", "iter_next", "iter_next", "piter_new", "piter_new", "piter_next", "piter_next", "piter_next"]
@@ -146,7 +189,7 @@ def semantic(score_or_part):
         out.append((
             p.id,
             tuple((int(a), int(b)) for a, b in p.quarter_durations()),
-            tuple(sorted((type(o).__name__, o.start.t if o.start else None, o.end.t if o.end else None, getattr(o, "id", None), getattr(o, "step", None), getattr(o, "alter", None), getattr(o, "octave", None), getattr(o, "voice", None), getattr(o, "staff", None)) for o in p.iter_all(S.TimedObject, include_subclasses=True) if not isinstance(o, S.Segment)) if True else ()),
+            tuple(sorted(((type(o).__name__, o.start.t if o.start else None, o.end.t if o.end else None, getattr(o, "id", None), getattr(o, "step", None), getattr(o, "alter", None), getattr(o, "octave", None), getattr(o, "voice", None), getattr(o, "staff", None)) for o in p.iter_all(S.TimedObject, include_subclasses=True) if not isinstance(o, S.Segment)), key=repr) if True else ()),
         ))
     return repr(out)
 
@@ -308,6 +351,7 @@ def oracle(spec):
     for ps, p in zip(spec["parts"], parts):
         for (a, b) in ps.get("repeats", []):
             p.add(S.Repeat(), a, b)
+        add_marks(p, ps.get("c20_marks", []))
     perf, alignment = build_perf(spec["parts"], score, spec["two_pparts"])
     loose = build_loose()
     fp_s = score_fingerprint(score)
@@ -381,6 +425,8 @@ def oracle(spec):
     o.cls("two-exporters-and-repeat", len(exporters) >= 2 and repeated)
     o.cls("two-live-iterators", live2)
     o.cls("repeated-call", repeated)
+    o.cls("open-ended-mark", any(m[2] is None and m[0] not in ("tempo", "fermata") for ps in spec["parts"] for m in ps.get("c20_marks", [])))
+    o.cls("open-ended-pedal-and-musicxml", "musicxml" in kinds and any(m[2] is None and m[0].startswith("pedal") for ps in spec["parts"] for m in ps.get("c20_marks", [])))
     for k in kinds:
         o.cls("op:" + k)
     return o
